@@ -155,7 +155,7 @@ def blocked_sample(pid, inodes):
         if name is None:
             return None
         return (name, int(rest[11]) + int(rest[12]))
-    except (OSError, ValueError, IndexError):
+    except (OSError, ValueError, IndexError, TypeError):
         return None
 
 
@@ -183,6 +183,8 @@ def _pool_stuck_sample(P):
             inodes = {ino_in: 'inq'}
             if synq is not None:
                 inodes[os.fstat(synq._reader.fileno()).st_ino] = 'synq'
+            if w.pid is None:            # being started by the supervisor right now
+                return None
             b = blocked_sample(w.pid, inodes)
             if b is None:
                 return None
@@ -191,7 +193,7 @@ def _pool_stuck_sample(P):
             if P._inqueue._reader.poll(0) or not P._taskqueue.empty():
                 return None
         return tuple(pic)
-    except (OSError, ValueError, AttributeError):
+    except Exception:            # noqa  (pool mutating under our feet: no picture)
         return None
 
 
